@@ -639,3 +639,33 @@ Definition c13_hosts (toks : list (list N)) : list (list N) :=
     [[if ok then 0 else 1; if ok then 0 else 1]]
   | _ => REJECT_TOK
   end.
+
+(* ---------------- C08 ---------------- *)
+From TT Require Import Model.Http1 Generated.Http1Facts.
+
+Fixpoint c08_split (stream : list N) (sizes : list N) : list (list N) :=
+  match sizes with
+  | [] => match stream with [] => [] | _ => [stream] end
+  | n :: r =>
+    match stream with
+    | [] => []
+    | _ => let k := N.to_nat n in
+           match firstn k stream with
+           | [] => c08_split stream r
+           | p => p :: c08_split (skipn k stream) r
+           end
+    end
+  end.
+
+(* in: [status; close_after] stream seg_sizes download.  out: [outcome; head_len] upload *)
+Definition c08_run (toks : list (list N)) : list (list N) :=
+  match toks with
+  | _ :: stream :: sizes :: _ =>
+    match listen parse_c HTTP1_PARTIAL_HEAD_READS_MORE (c08_split stream sizes) with
+    | ORequest head rest => [[0; lenN head]; rest]
+    | OClosed => [[1; 0]; []]
+    | OFailed => [[2; 0]; []]
+    | OFuel => [[995; 0]; []]
+    end
+  | _ => REJECT_TOK
+  end.
